@@ -139,13 +139,11 @@ Tiles == LET sc == Scan(raw) IN
 (* no emphasis boundary falls inside a protected segment *)
 MatchesOutside == \A m \in matches : ~Protected(Scan(raw), m.os) /\ ~Protected(Scan(raw), m.cs)
 
-(* classes: "unsettled-..." the specification text admits two readings (not judged); the other one is a recorded finding *)
+(* classes: "unsettled-..." the specification text admits two readings (not judged) *)
 ITags ==
     LET sc == Scan(raw) IN
     (IF \E k \in 1..(Len(sc) - 1) : sc[k].k = "esc" /\ raw[sc[k].e] = "`" /\ raw[sc[k + 1].s] = "`"
      THEN {"unsettled-escaped-backtick-before-backticks"} ELSE {})       \* is the run behind an escaped backtick "preceded by a backtick"?
-    \cup (IF \E k \in 1..(Len(sc) - 1) : sc[k].k = "esc" /\ raw[sc[k].e] = "\\" /\ sc[k + 1].k \in {"html", "auto"}
-          THEN {"escaped-backslash-before-tag-or-autolink"} ELSE {})
     \cup (IF NeedsEnc THEN {"unsettled-autolink-address-spelling"} ELSE {})
 
 IExport == phase = "done" => PrintT(ToJson([input |-> Flat(raw), html |-> Html, tags |-> ITags]))
